@@ -169,6 +169,7 @@ type vfTokenScript struct {
 	NoRefresh bool       `json:"no_refresh"`     // login: return no refresh token
 	SameToken bool       `json:"same_token"`     // refresh: return the previous ID token again
 	RefreshLen int       `json:"refresh_len,omitempty"` // length of the refresh token to issue (0: short)
+	ForgeLast  bool      `json:"forge_last,omitempty"`  // the ID token returned is the previous genuine one's header and SIGNATURE around another payload (never acceptable)
 	RefreshGz  bool      `json:"refresh_gz,omitempty"`  // the refresh token issued is itself the base64 text of a gzip stream (opaque to the client, as any refresh token)
 	NonceMode string     `json:"nonce_mode,omitempty"` // "" own | other | missing
 }
@@ -181,6 +182,7 @@ type vfProvider struct {
 	endSession bool
 	revocation string // "" none | ok | fail (set before the first discovery request)
 	revokeHits int
+	challengeMethods []string // advertised as code_challenge_methods_supported when not nil
 	jwksGate   chan struct{} // when set: a JWKS request signals jwksArrived and waits for the gate to be closed (concurrency harness)
 	jwksArrived chan struct{}
 	codes      map[string]*vfAuthReq
@@ -224,6 +226,26 @@ func vfNewProvider(clientID string, endSession bool, r *vfRand) *vfProvider {
 		}
 		if p.revocation != "" {
 			doc["revocation_endpoint"] = p.issuer + "/revoke"
+		}
+		w.Header().Set("Content-Type", "application/json")
+		if p.challengeMethods != nil {
+			full := map[string]interface{}{}
+			for k, v := range doc {
+				full[k] = v
+			}
+			full["code_challenge_methods_supported"] = p.challengeMethods
+			json.NewEncoder(w).Encode(full)
+			return
+		}
+		w.Header().Set("Content-Type", "application/json")
+		json.NewEncoder(w).Encode(doc)
+	})
+	// a second tenant on the same host: its own discovery document and endpoints under /realms/b
+	mux.HandleFunc("/realms/b/.well-known/openid-configuration", func(w http.ResponseWriter, req *http.Request) {
+		base := p.issuer + "/realms/b"
+		doc := map[string]string{"issuer": base, "authorization_endpoint": base + "/authorize", "token_endpoint": base + "/token", "jwks_uri": p.issuer + "/jwks"}
+		if p.endSession {
+			doc["end_session_endpoint"] = base + "/logout"
 		}
 		w.Header().Set("Content-Type", "application/json")
 		json.NewEncoder(w).Encode(doc)
@@ -433,7 +455,14 @@ func (p *vfProvider) handleToken(w http.ResponseWriter, req *http.Request) {
 		}
 	}
 	var id string
-	if sc.SameToken && p.lastID != "" {
+	if sc.ForgeLast && strings.Count(p.lastID, ".") == 2 {
+		spec.BadSig = true
+		m := vfMintToken(p.issuer, p.clientID, spec, p.r)
+		lp, mp := strings.Split(p.lastID, "."), strings.Split(m.Token, ".")
+		m.Token = lp[0] + "." + mp[1] + "." + lp[2]
+		p.minted = append(p.minted, m)
+		id = m.Token
+	} else if sc.SameToken && p.lastID != "" {
 		id = p.lastID
 	} else {
 		m := vfMintToken(p.issuer, p.clientID, spec, p.r)
@@ -442,7 +471,7 @@ func (p *vfProvider) handleToken(w http.ResponseWriter, req *http.Request) {
 	}
 	if sc.Kind == "no_id_token" {
 		id = ""
-	} else {
+	} else if !sc.ForgeLast {
 		p.lastID = id
 	}
 	rt := ""
